@@ -157,4 +157,17 @@ CHECKS = {
               'first element is not the concatenation element is misread; kernel-checked on the model, replayed on the code).'),
         note=COMMON_NOTE + 'Two hand transcriptions of SMPP 3.4 (Spec/Smpp34.lean, tools/spec/smpp.py) and of 3GPP TS 23.038 are the reference; an error common to both and to the code would go unseen.',
         technique='Lean 4 theorems (decide +kernel over whole tables via run-length structure, list-of-fields equality); differential correspondence + independent encoder in both directions'),
+    'C12': dict(
+        text=('Proof. Props/C12.lean over an interpreter model of jsonutils._json_default / dict_to_smpp_message and the from_json '
+              'class methods whose data is REGENERATED FROM THE SOURCE on every run (tools/extract.py gen_shape -> Gen/Shape.lean: the '
+              'dataclass fields, declared types and defaults of the fifteen classes; the argument expressions of each from_json read '
+              'from its AST; the type key written and read; MESSAGE_TYPE_MAP). Main theorem json_round_trip: for every class and every '
+              'assignment of admissible values (any strings, any ints, every enum member, aware/naive datetimes, timedeltas with '
+              'fractional seconds, any list of optional parameters) fromJson(toJson m) = m, all public attributes in order; the '
+              'encoded form names the type; isoformat/fromisoformat and timedelta<->float round trips proved for their models. The '
+              'only unrestored fields are command_status of the three bind requests (theorem unrestored_fields; null in requests). '
+              'Tied to the code additionally by correspondence through the real json_encode/json_decode (tree and object compared) '
+              'and a malformed stream for dict_to_smpp_message.'),
+        note=COMMON_NOTE + 'json.dumps/json.loads are outside the model (tree level). isoformat/fromisoformat and float exactness of total_seconds()/timedelta(seconds=) are modelled and swept, not verified; tzinfo reduced to a whole-second utcoffset. The extractor recognises five argument patterns; any other expression becomes Conv.unknown and breaks shape_ok (then the check searches for a failing message).',
+        technique='Lean 4 theorems over a model regenerated from the source (kernel-evaluated shape obligations + generic round-trip proof by induction over the field list); differential correspondence'),
 }
